@@ -515,17 +515,66 @@ def _always_jumps(stmts) -> bool:
     return False
 
 
+def _contains_jump(s) -> bool:
+    for x in ast.walk(s):
+        if isinstance(x, (ast.Return, ast.Continue, ast.Break, ast.Raise)):
+            return True
+    return False
+
+
+def _leave_condition(stmts):
+    """When does control leave the enclosing block from inside `stmts` (by continue / break / return / raise)?
+    Returns False (never), True (always), an expression (exactly when it is true) or None (not expressible).
+    Only the last statement may jump; `if` nests are followed: `if a: if b: continue` leaves when `a and b`."""
+    if not stmts:
+        return False
+    if any(_contains_jump(s) for s in stmts[:-1]):
+        return None
+    last = stmts[-1]
+    if isinstance(last, (ast.Return, ast.Continue, ast.Break, ast.Raise)):
+        return True
+    if not _contains_jump(last):
+        return False
+    if isinstance(last, ast.If):
+        b, e = _leave_condition(last.body), _leave_condition(last.orelse)
+        if b is None or e is None:
+            return None
+        parts = []
+        for cond, branch_test in ((b, last.test), (e, ast.UnaryOp(op=ast.Not(), operand=last.test))):
+            if cond is False:
+                continue
+            if cond is True:
+                parts.append(branch_test)
+            else:
+                parts.append(ast.BoolOp(op=ast.And(), values=[branch_test, cond]))
+        if not parts:
+            return False
+        out = parts[0] if len(parts) == 1 else ast.BoolOp(op=ast.Or(), values=parts)
+        ast.copy_location(out, last)
+        ast.fix_missing_locations(out)
+        out._anchor = last          # for reporting: the statement this synthetic condition comes from
+        return out
+    return None
+
+
+class Conds(list):
+    """path conditions; `complete` is False when some earlier statement may leave the block in a way that could not
+    be expressed (then the ABSENCE of a condition proves nothing)."""
+    complete = True
+
+
 def path_conditions(parents, node: ast.AST, upto: Optional[ast.AST] = None):
     """Conditions under which `node` is reached, relative to the entry of `upto` (a loop: one iteration of its
     body; a function: its body; None: the function root):  [(test_expr, polarity)], outermost first.
 
     Both spellings of a guard are understood: an enclosing `if T:` (polarity by branch) and a preceding sibling
-    `if T: ...<always leaves the block: continue / break / return / raise>` (polarity False for what follows;
-    symmetric for an `else` branch that always leaves).  Loops between node and upto contribute nothing (their
-    own guards are relative to their own iterations) but the walk continues through them."""
-    out = []
+    statement that leaves the block (continue / break / return / raise) under some condition L - what follows runs
+    under `not L`; L is read off nested ifs (`if a: if b: continue` leaves when `a and b`).  Loops between node and
+    upto contribute nothing (their guards are relative to their own iterations) but the walk continues through them."""
+    out = Conds()
     child = parents.stmt_of(node) if not isinstance(node, ast.stmt) else node
     cur = child
+    complete = True
     while cur is not None and cur is not upto:
         par = parents.parent(cur)
         if par is None:
@@ -537,20 +586,37 @@ def path_conditions(parents, node: ast.AST, upto: Optional[ast.AST] = None):
                 idx = [i for i, s in enumerate(blk) if s is cur][0]
                 conds_here = []
                 for s in blk[:idx]:
+                    if not _contains_jump(s):
+                        continue
+                    if isinstance(s, (ast.For, ast.While)):
+                        # break / continue inside belong to that loop; a return / raise inside may leave us
+                        if any(isinstance(x, (ast.Return, ast.Raise)) for x in ast.walk(s)):
+                            complete = False
+                        continue
                     if isinstance(s, ast.If):
-                        if _always_jumps(s.body) and not _always_jumps(s.orelse):
+                        lc = _leave_condition([s])
+                        if lc is None:
+                            complete = False
+                        elif lc is True or lc is False:
+                            pass
+                        elif _always_jumps(s.body) and not _contains_jump(ast.Module(body=s.orelse, type_ignores=[])):
                             conds_here.append((s.test, False))
-                        elif s.orelse and _always_jumps(s.orelse) and not _always_jumps(s.body):
+                        elif s.orelse and _always_jumps(s.orelse) and not _contains_jump(ast.Module(body=s.body, type_ignores=[])):
                             conds_here.append((s.test, True))
+                        else:
+                            conds_here.append((lc, False))
+                    elif isinstance(s, (ast.Try, ast.With)):
+                        complete = False
                 if isinstance(par, ast.If) and field in ("body", "orelse"):
                     conds_here.insert(0, (par.test, field == "body"))
                 if isinstance(par, ast.While) and field == "body" and par is not upto:
                     conds_here.insert(0, (par.test, True))
-                out = conds_here + out
+                out[:0] = conds_here
                 break
         if isinstance(par, (ast.FunctionDef, ast.AsyncFunctionDef, ast.Lambda)):
             break
         cur = par
+    out.complete = complete
     return out
 
 
